@@ -234,6 +234,15 @@ def model_assumptions(ctx):
         ctx.ob(R3, 'is_not_zero·is·!is_zero', via and len(isz) == 1 and len(nzc.calls) == 1 and neg,
                f'is_not_zero: through value_is: {via}; is_zero calls: {len(isz)}; negated: {neg}', [nzc.loc])
     plan_condition_assumptions(ctx, prog)
+    # the order analysis behind is_orderby: modelled as "these operators hand on their child's keys unchanged"
+    ao = prog.body('planner::rules::order::analyze_order')
+    if ctx.anchor(R3, 'planner::rules::order::analyze_order', ao is not None):
+        from rules.c12 import pass_through_arms
+        for v, foreign in sorted(pass_through_arms(ao).items()):
+            ctx.ob(R3, f'analyze_order·{v}·passes-keys-unchanged', not foreign,
+                   f'analyze_order arm {v}: calls other than the accessor and clone: {foreign}', [ao.loc],
+                   what=f'analyze_order no longer hands the key list of `{v}`\'s child on unchanged: the model of is_orderby used by the law '
+                        'check (useless-order, merge-join, sort-agg) does not describe it')
 
 
 def _captures(body, l, depth=14):
